@@ -486,6 +486,27 @@ pub fn c06(tier: &str, seed: u64) {
       case(true);
       stat("oracle.C06.repeated_x_other_length");
     }
+    // a list that STARTS with shares without y values (24-byte encodings) followed by the real ones
+    // has shares of unequal length: refused (and the other way round)
+    if k >= 1 && distinct.len() >= t as usize {
+      let mut sel = distinct.clone();
+      let mut empty = sel[0].clone();
+      empty.y.clear();
+      empty.x = fp_from_big(&BigUint::from(7_000_000u32 + case_i as u32));
+      let front = g.chance(1, 2);
+      if front {
+        sel.insert(0, empty);
+      } else {
+        sel.push(empty);
+      }
+      match std::panic::catch_unwind(std::panic::AssertUnwindSafe(|| sharks.recover(&sel).map_err(|e| e.to_string()))) {
+        Err(_) => fail("recover_panic", &[("t", t.to_string()), ("what", "a share without y values among shares with y values".into())]),
+        Ok(Ok(v)) => fail("unequal_length_share_accepted", &[("t", t.to_string()), ("k", k.to_string()), ("what", format!("a share without y values {} {} shares with {} y values", if front { "before" } else { "after" }, sel.len() - 1, k)), ("returned", hex(&v))]),
+        Ok(Err(_)) => {}
+      }
+      case(true);
+      stat("oracle.C06.empty_share_among_full_ones");
+    }
     // shares at CHOSEN points (related values: equal modulo 2^64 / 2^128, adjacent, negatives),
     // built with the independent evaluation: exactly t distinct of them must recover
     if k >= 1 && t >= 2 && t <= 12 {
